@@ -56,6 +56,7 @@ def r1(repo, chk):
                 if loop is not None and r.args and norm(r.args[0]) == norm(loop.target) and fn.before(loop, c):
                     lst = norm(loop.iter)
                     ins = [x for x in fn.calls(name=f"{lst}.insert") if len(x.args) == 2 and norm(x.args[1]) == "self._peer_cid"]
+                    ins += [x for x in fn.calls(name=f"{lst}.append") if len(x.args) == 1 and norm(x.args[0]) == "self._peer_cid"]
                     # the flag that guards consumption also guards putting the current ID on the retire list
                     gc = {a for a in fn.guard_atoms(c) if a[1] and a[0].isidentifier()}
                     for x in ins:
@@ -99,7 +100,12 @@ def r1(repo, chk):
     ok = len(loops) == 1 and norm(loops[0].iter) == "self._retire_connection_ids[:]"
     chk.ob("R1", "_write_application announces every pending retirement (iterates over a copy of the list while consuming it)", ok, "", wa.loc(wa.node))
     cids = [l for l in wa.stmts(lambda s: isinstance(s, ast.For)) if norm(l.iter) == "self._host_cids"]
-    ok = any(any(isinstance(n, ast.If) and norm(n.test) == f"not {norm(l.target)}.was_sent" and any(isinstance(c, ast.Call) and call_name(c) == "self._write_new_connection_id_frame" and norm(get_kw(c, "connection_id", 1)) == norm(l.target) for b in n.body for c in ast.walk(b)) for n in ast.walk(l)) for l in cids)
+    ok = False
+    for l in cids:
+        for c in wa.calls(name="self._write_new_connection_id_frame"):
+            if inside(c, l) and norm(get_kw(c, "connection_id", 1)) == norm(l.target):
+                inner = [a for a in wa.guard_atoms(c) if a not in wa.guard_atoms(l)]
+                ok = inner == [(f"{norm(l.target)}.was_sent", False)]
     chk.ob("R1", "_write_application announces every issued connection ID that was not sent yet", ok, "", wa.loc(wa.node))
 
 
@@ -159,6 +165,18 @@ def r3(repo, chk):
     others = [fn.qual for fn in _conn_fns(repo) for st, t, v in fn.assigns(chain="self._peer_retire_prior_to") if fn.qual.split(".")[-1] not in ("__init__", "_handle_new_connection_id_frame")]
     chk.ob("R3", "retire-prior-to has no other writer", not others, f"{others}", "")
     filt = [st for st, t, v in h.assigns(chain="self._peer_cid_available") if isinstance(v, ast.ListComp) and v.generators[0].ifs and natom(norm(v.generators[0].ifs[0])) == natom(f"{norm(v.elt)}.sequence_number >= self._peer_retire_prior_to") and norm(v.generators[0].iter) == "self._peer_cid_available"]
+    # the same filter written as a loop that copies the eligible entries into a fresh list
+    for st, t, v in h.assigns(chain="self._peer_cid_available"):
+        if isinstance(v, ast.Name):
+            inits = [x for x in h.assigns(chain=v.id)]
+            apps = h.calls(name=f"{v.id}.append")
+            good = len(inits) == 1 and norm(inits[0][2]) == "[]" and bool(apps) and h.before(inits[0][0], st)
+            for c in apps:
+                loop = next((p for p in _ancestors(c) if isinstance(p, ast.For)), None)
+                good = good and loop is not None and norm(loop.iter) == "self._peer_cid_available" and len(c.args) == 1 and norm(c.args[0]) == norm(loop.target) and natom(f"{norm(loop.target)}.sequence_number >= self._peer_retire_prior_to") in h.guard_atoms(c) and h.before(loop, st)
+            others = [n for n in h.nodes(ast.Name) if n.id == v.id and isinstance(n.ctx, ast.Load) and not any(n is c.func.value for c in apps) and n is not v]
+            if good and not others:
+                filt.append(st)
     cons = h.calls(name="self._consume_peer_cid")
     ok = len(filt) == 1 and bool(rpt) and h.before(rpt[0][0], filt[0]) and all(h.before(filt[0], c) for c in cons)
     chk.ob("R3", "stored IDs below retire-prior-to are dropped before a replacement is chosen", ok, "a retired ID could be taken into use", h.loc(h.node))
